@@ -367,7 +367,8 @@ def fs_sinks(P: Program, fi: FuncInfo) -> List[dict]:
             mode_e = arg_or_kw(c, 0, "mode")
             mode = fold_str(P, fi, mode_e) if mode_e is not None else "r"
             out.append({"kind": "Path.open", "mode": mode, "call": c, "path": c.func.value})
-        elif isinstance(c.func, ast.Attribute) and c.func.attr in FS_WRITE_METHODS and not (ref or "").startswith("repo:"):
+        elif isinstance(c.func, ast.Attribute) and c.func.attr in FS_WRITE_METHODS and not (ref or "").startswith("repo:") and not (c.func.attr == "replace" and len(c.args) + len(c.keywords) != 1):
+            # (str.replace(old, new[, count]) is not a file operation; Path.replace(target) takes exactly one argument)
             out.append({"kind": "Path." + c.func.attr, "mode": "w", "call": c, "path": c.func.value})
         elif (ref or "").startswith("ext:shutil.") or d.startswith("shutil."):
             out.append({"kind": d, "mode": "w", "call": c, "path": c.args[0] if c.args else None})
